@@ -7,7 +7,7 @@ import subprocess
 import vcheck
 
 OVERLAY = {"cmd/verif_pickle/main.go": "main.go", "cmd/verif_pickle/gen.go": "gen.go",
-           "cmd/verif_pickle/graph.go": "graph.go", "cmd/verif_pickle/rec.go": "rec.go", "cmd/verif_pickle/super.go": "super.go", "cmd/verif_pickle/recfile.go": "recfile.go", "cmd/verif_pickle/recstruct.go": "recstruct.go", "cmd/verif_pickle/multi.go": "multi.go",
+           "cmd/verif_pickle/graph.go": "graph.go", "cmd/verif_pickle/rec.go": "rec.go", "cmd/verif_pickle/super.go": "super.go", "cmd/verif_pickle/recfile.go": "recfile.go", "cmd/verif_pickle/recstruct.go": "recstruct.go", "cmd/verif_pickle/multi.go": "multi.go", "cmd/verif_pickle/recjson.go": "recjson.go",
            "pickle/verif_export.go": "export.go", "verif_pickle_export.go": "dawn_export.go"}
 
 
